@@ -265,7 +265,7 @@ def gen_case(rnd, tier, index):
                     'v': round((n_ * 0.7548776662466927) % 1.0, 6),
                     'k': rnd.choice((0, 0, rnd.randrange(1, LINE_JK))), 'K': LINE_JK,
                     'first': n_ % 2, 'grain': 'line'}
-        if rnd.random() < 0.6:
+        if rnd.random() < 0.8:
             schedule['meet'] = [round(rnd.random(), 6), rnd.choice((0, 1, 2, 3, 5, 8))]
         cfg = {'ctx': True} if rnd.random() < 0.25 else {}
     else:
@@ -615,7 +615,11 @@ def run_case(case):
                 first = names[schedule['first'] % len(names)]
                 other = [n for n in names if n != first][0]
                 table = sites[first] or {}
-                keys = sorted(table)
+                # helpers and library functions three times as often as the functions of
+                # the compiler itself (those are covered at cell granularity as well)
+                keys = [k_ for k_ in sorted(table)
+                        for _ in range(1 if k_.startswith(('excelcompiler.py', 'excelformula.py'))
+                                       else 3)]
                 if keys:
                     site = keys[min(len(keys) - 1, int(schedule['u'] * len(keys)))]
                     occ = table[site]
